@@ -201,6 +201,9 @@ func (s *Server) DidChange(ctx context.Context, params *protocol.DidChangeTextDo
 			}
 		}
 		s.documents.Store(params.TextDocument.URI, content)
+		// Payee templates are collected over the whole include tree: a change of any
+		// document may change what inline completion has to offer in every other one.
+		s.dropPayeeTemplates()
 		if path := uriToPath(params.TextDocument.URI); path != "" {
 			if s.workspace != nil {
 				s.workspace.UpdateFile(path, content)
@@ -223,8 +226,15 @@ func (s *Server) DidClose(ctx context.Context, params *protocol.DidCloseTextDocu
 	return nil
 }
 
+func (s *Server) dropPayeeTemplates() {
+	s.payeeTemplatesCache.Range(func(key, _ any) bool {
+		s.payeeTemplatesCache.Delete(key)
+		return true
+	})
+}
+
 func (s *Server) DidSave(ctx context.Context, params *protocol.DidSaveTextDocumentParams) error {
-	s.payeeTemplatesCache.Delete(params.TextDocument.URI)
+	s.dropPayeeTemplates()
 
 	if path := uriToPath(params.TextDocument.URI); path != "" {
 		if s.workspace != nil {
